@@ -16,4 +16,5 @@ INST(m, n)   == [o |-> "INST", m |-> m, n |-> n]
 G1 == GLOBAL("M1", "N1")
 G2 == GLOBAL("M2", "N2")
 I1 == INST("M1", "N1")
+PersidOp == [o |-> "PERSID", ty |-> "str", v |-> "str:'pid'", h |-> "s:'pid'", s |-> "pid"]
 =============================================================================
